@@ -27,6 +27,9 @@ pub struct Gram {
     pub lalr: bool,
     /// extra header lines (scanner directives etc.)
     pub header: Vec<String>,
+    /// per non-terminal: text appended to every right-hand-side occurrence (`^`, `@m`, ` : T`)
+    #[serde(default)]
+    pub deco: Vec<String>,
 }
 
 pub const NT_NAMES: [&str; 4] = ["S", "A", "B", "C"];
@@ -41,6 +44,7 @@ impl Gram {
             prods,
             lalr,
             header: vec![],
+            deco: vec![],
         }
     }
 
@@ -53,7 +57,12 @@ impl Gram {
                 out.push(' ');
                 match f {
                     Fac::T(t) => out.push_str(&self.terms[*t as usize]),
-                    Fac::N(n) => out.push_str(&self.nts[*n as usize]),
+                    Fac::N(n) => {
+                        out.push_str(&self.nts[*n as usize]);
+                        if let Some(d) = self.deco.get(*n as usize) {
+                            out.push_str(d);
+                        }
+                    }
                     Fac::Group(a) => {
                         out.push('(');
                         self.fmt_alts(a, out);
